@@ -87,10 +87,19 @@ CLAIMED["C14"] = dict(
     technique="CBMC function contracts (dfcc) on extracted C + relational lemma harness, SAT / cvc5",
     ref="6/C14, 10.3")
 
+CLAIMED["C09"] = dict(
+    text="Proof for the algebraic clauses (RING, T = unsigned): Matrix44/Matrix33 setTranslation, setScale (vector and scalar), setShear send a row-vector point to p+t, to p scaled per axis, to the documented shear, translation() returns the translation row; the in-place translate, scale, shear (Vec3/Vec2, Shear6 and scalar overloads) equal the corresponding set* matrix multiplied on the LEFT of the current matrix for ARBITRARY (also non-affine) current matrices - the fourth row/column terms the tests never exercise.",
+    note="Trusted: clang AST + cxx2c (differentially validated), cbmc SMT generation, z3-new som. RING -> float transfer as for C05 (same template; classical rounding bound not machine-checked). Not covered: every rotation builder (sin/cos, orthonormality), rotate(), Matrix22, the frame builders.",
+    technique="polynomial identities over Z/2^32 on the extracted unsigned instantiation (cbmc --z3 --outfile + z3 sum-of-monomials)",
+    ref="6/C09, 10.3")
+CLAIMED["C10"] = dict(
+    text="Proof for the algebraic clauses, homogenised so that each identity holds for EVERY quaternion and specialises to the property at unit norm N = q.q = 1 (RING, T = unsigned): v*q == v*q.toMatrix33(); q.rotateVector(v) == v*q + (N-1)v; toMatrix33 and toMatrix44 hold the same block with an affine border; with K(q) = M(q) + (N-1)I, K(q1*q2) == K(q2)*K(q1) (quaternion multiplication is multiplication of the rotation matrices, row-vector convention); ~q negates the vector part only and q * ~q == (N,0,0,0).",
+    note="Trusted: clang AST + cxx2c, cbmc, z3-new som. Not covered: exp/log, axis/angle, extractQuat, setRotation(from,to), slerp family, Quat vs Matrix44 setAxisAngle (transcendental functions, normalisation), q*inverse(q) (division).",
+    technique="polynomial identities over Z/2^32 on the extracted unsigned instantiation (cbmc --z3 --outfile + z3 sum-of-monomials)",
+    ref="6/C10, 10.3")
+
 NA = {
     "C08": "the property is accuracy (ulps of length() and of normalised vectors): not expressible to the installed back ends (sqrt is uninterpreted; CBMC's own sqrt model times out). The structural remnants - zero vector stays zero / normalizeExc throws exactly for zero length / normalize == normalized - are decided under C07; length2()==dot(*this) is the function's literal body.",
-    "C09": "planned as RING obligations with uninterpreted sin/cos (DESIGN section 6) but not built in this revision; no check is registered, nothing is claimed.",
-    "C10": "planned as RING obligations on Quat<unsigned> (DESIGN section 6) but not built in this revision; the transcendental clauses (exp/log, axis-angle, slerp) are out of reach in any case.",
     "C12": "factor recomposition, orthonormal residuals, Jacobi SVD / eigen convergence and Procrustes optimality are statements about iterative floating-point algorithms with sqrt/normalisation at every step; no contract expressible to CBMC states them without real-number error analysis (the exc-flag agreement of these wrappers would belong to C07 and is not built).",
     "C15": "closest points, distances, reflections, plane / sphere / triangle intersection are metric statements through normalize, division and sqrt; the division-free fragments are too thin to stand for the property.",
     "C16": "projection / depth / plane / culling consistency needs rational identities with divisions, tan/atan2, normalised plane equations and real-geometry inclusion arguments; only Exc/non-Exc agreement would be within reach (C07 family) and is not built.",
